@@ -1253,6 +1253,17 @@ def run(ctx):
     if rs["coverage"]["structures_evaluated"] < 300:
         viol.append(dict(what="reader-vs-specification tie: only %d structures of reference files were evaluated" % rs["coverage"]["structures_evaluated"],
                          nofail=True, correspondence="reference corpus discovery (tools/props/c05.py reference_structs)"))
+    # second oracle: the Coq whole-file specification walker (tools/props/c06walk.py)
+    from props import c06walk
+    wviol, w_by_rc, wcov = c06walk.run_oracle(ctx, corpus_files(), outs, known_idx)
+    viol.extend(wviol)
+    for rc in root_causes:
+        if w_by_rc.get(rc["id"]):
+            known_lines.append("%s: %d (file, object) discrepancies re-confirmed by the Coq walker oracle - %s (%s)" % (
+                rc["id"], w_by_rc[rc["id"]], rc["what"], rc["site"]))
+    if wcov["files_compared"] < 100 or wcov["objects_compared"] < 300:
+        viol.append(dict(what="walker oracle coverage collapsed: %d files compared, %d objects" % (wcov["files_compared"], wcov["objects_compared"]),
+                         nofail=True, correspondence=c06walk.CORR))
     # the quantifier must not silently shrink
     if summ.get("files_with_ddl", 0) < 100 or C.stats["values_compared"] < 10000:
         viol.append(dict(what="corpus coverage collapsed: %d files with DDL, %d values compared" % (summ.get("files_with_ddl", 0), C.stats["values_compared"]),
@@ -1271,7 +1282,7 @@ def run(ctx):
                model_evaluations_in_coq=ncoq, go_wall_s=round(go_wall, 1), exhaustive=(ctx.tier == "thorough"),
                element_limit=(QUICK_LIMIT if ctx.tier == "quick" else 0),
                programs=summ.get("corpus_files", 0), disagreements_checked=ncoq,
-               reader_vs_specification=rs["coverage"])
+               reader_vs_specification=rs["coverage"], walker_oracle=wcov)
     return dict(violations=viol, known=known_lines, coverage=cov)
 
 
